@@ -80,7 +80,12 @@ fn run_via_server(stim: &Value, rec: &Rec) {
                 (Some(r), _) => r.add_service($svc),
             });
         }}; }
-        for st in plan.iter() {
+        // plan entry {how:"routes", names:[..]}: those services are collected in a Routes value (prepared) and handed over with add_routes
+        if let Some(names) = plan.first().filter(|st| st["how"].as_str() == Some("routes")).map(|st| st["names"].as_array().cloned().unwrap_or_default()) {
+            let reg: Vec<String> = names.iter().map(|v| v.as_str().unwrap_or("").to_string()).collect();
+            router = Some(srv.add_routes(build_routes(&reg, &log, true).prepare()));
+        }
+        for st in plan.iter().filter(|st| st["how"].as_str() != Some("routes")) {
             let how = st["how"].as_str().unwrap_or("add");
             match st["name"].as_str().unwrap_or("") {
                 "a.S" => reg!(how, g::a_s::s_server::SServer::new(H { svc: "a.S", log: log.clone() }), g::a_s::s_server::SServer<H>),
